@@ -129,6 +129,8 @@ class Ctx(object):
         self.nontrivial = set()
         self.samples = []
         self.failures = []      # oracle failures: dict(what, key, case)
+        self.history = []       # the cases run so far, in order (a failure may depend on what the process did before)
+        self._depth = 0
         self.known_hits = Counter()
         self.ops = []           # (op, case) pairs for the correspondence
         self.corr_diffs = []
@@ -166,12 +168,16 @@ class Ctx(object):
         if key is not None and (self.pid, key) in self.known:
             self.known_hits[key] += 1
             return
-        self.failures.append({"what": what if len(what) <= 400 else what[:400] + " …", "key": key, "case": case})
+        self.failures.append({"what": what if len(what) <= 400 else what[:400] + " …", "key": key, "case": case,
+                              "at": len(self.history)})
 
     def guard(self, fn, case, *a):
         """run one case; an exception escaping from the implementation (innermost frame inside /repo or
         Biopython) is a failure of the property on that case, an exception of the harness is re-raised"""
         import traceback
+        if self._depth == 0 and isinstance(case, dict):
+            self.history.append(case)
+        self._depth += 1
         try:
             return fn(self, case, *a)
         except Exception as e:  # noqa
@@ -184,6 +190,8 @@ class Ctx(object):
                     type(e).__name__, str(e)[:120], os.path.relpath(where.filename, repo), where.lineno), case)
                 return None
             raise
+        finally:
+            self._depth -= 1
 
     def op(self, op, case=None, reply=None):
         """register an operation for the correspondence; `reply` = the implementation's reply when the
